@@ -251,7 +251,11 @@ impl Property for C03 {
                         n.min(40)
                     }
                 }
-                _ => n,
+                // line lookup in the reader is quadratic in the number of lines (17 000 headings
+                // take minutes): sizes stay where a case ends well inside the watchdog. About
+                // 2 500 siblings are what the recursion finding needs.
+                6 | 7 | 11 => n.min(2600),
+                _ => n.min(5000),
             };
             C03Case { text: String::new(), scale: Some((kind, n)), ext }
         });
